@@ -5,6 +5,7 @@
    See manifest.d/C03.json for what is full / partial / refuted. *)
 From Hio Require Import Base.Prelude Base.AMap Base.Time Model.Sched Proofs.SchedFrame Proofs.SchedLife Proofs.SchedTop
   Proofs.SchedCycleTick Proofs.SchedCycleDue Proofs.SchedCycleRef Proofs.SchedCycleStop Proofs.SchedCycleTree.
+From Hio Require Proofs.SchedDeque Proofs.SchedDequeSortB Proofs.SchedDequeEpos Proofs.SchedDequePass Proofs.SchedCycleOnce.
 
 (* ------------------------------------------------------------------ *)
 (* 1. The clock.  FULL: every program (static or dynamic, flat or nested, with
@@ -341,6 +342,63 @@ Proof.
     + repeat (constructor; try (econstructor; [reflexivity|])); try reflexivity.
     + split; [vm_compute; repeat constructor; cbn; intuition discriminate|vm_compute; intuition discriminate].
   - vm_compute. repeat split.
+Qed.
+
+(* ------------------------------------------------------------------ *)
+(* 7. DYNAMIC programs (extend / remove during a pass, nesting, raises): at most
+   once per pass.  FULL for every program and every scheduler x whose pass is
+   running (prot: x is executing, or x is the root and no doer is numbered 0):
+   if x's deque is u ++ [marker] ++ rr with the deeds u pairwise distinct doers
+   (true in every reachable state: no doer is held by two deeds, hold2_all of
+   Proofs/SchedDequeUniq.v), the doers the pass sends (loop_sent = recur_loop
+   instrumented with the list of doers it sends, Proofs/SchedDequePass.v) are a
+   sub-sequence of u - in deque order - and pairwise distinct: every doer is sent
+   at most once per pass, whatever the doers do meanwhile. *)
+Theorem C03_dynamic_pass_once :
+  forall (T : Type) (TT : Time T) (tk : T) (f : nat) (s : st T) (x : id) (u rr : list (deed T))
+         (s' : st T) (r : gres) (l : list id),
+    SchedDequeSortB.prot s x -> SchedDeque.dq s x = u ++ DMark :: rr -> SchedDequeEpos.mf u ->
+    NoDup (SchedDeque.dids u) ->
+    SchedDequePass.loop_sent tk f s x = (s', r, l) ->
+    recur_loop tk f s x = (s', r) /\ SchedDequePass.subseq l (SchedDeque.dids u) /\ NoDup l.
+Proof. intros. eapply SchedCycleOnce.pass_once; eassumption. Qed.
+Print Assumptions C03_dynamic_pass_once.
+
+(* ... and for every cycle k of every run of a program in which no doer is numbered
+   0 (no pass before it raised, no budget exhausted): the doers sent by the root's
+   pass of cycle k (root_sent) are pairwise distinct and a sub-sequence of the root
+   deque at the start of the cycle. *)
+Theorem C03_dynamic_run_once :
+  forall (T : Type) (TT : Time T) (fuel : nat) (p : prog T) (k : nat),
+    let tk := p_tock p in let s := after tk fuel (entered fuel p) k in
+    get (p_defs p) 0%N = None -> enter_ok fuel p = true ->
+    (forall j, (j < k)%nat -> cycle_ok tk fuel (after tk fuel (entered fuel p) j) = true) ->
+    oof s = false ->
+    NoDup (SchedCycleOnce.root_sent tk fuel s) /\
+    SchedDequePass.subseq (SchedCycleOnce.root_sent tk fuel s) (SchedDeque.qids s 0%N).
+Proof. intros T TT fuel p k. exact (SchedCycleOnce.run_pass_once fuel p k). Qed.
+Print Assumptions C03_dynamic_run_once.
+
+(* doer 1 extends the root with doer 3 in its first recur and removes doer 2 in its second *)
+Definition ex_dyn : prog Z :=
+  {| p_tock := 1%Z; p_limit := None; p_tyme := 0%Z; p_doers := [1; 2]%N;
+     p_defs := [(1, FLeaf KDoer [Y None; {| f_es := [EExtend 0%N [3%N]]; f_out := OYield None |};
+                                 {| f_es := [ERemove 0%N [2%N]]; f_out := OYield None |}; Y None]);
+                (2, FLeaf KDoer [Y None; Y None; Y None; Y None]);
+                (3, FLeaf KDoer [Y None; Y None; Y None])]%N |}.
+Example C03_example_dynamic :
+  let tk := 1%Z in let s0 := entered 100 ex_dyn in
+  get (p_defs ex_dyn) 0%N = None /\ enter_ok 100 ex_dyn = true /\
+  (forall j, (j < 2)%nat -> cycle_ok tk 100 (after tk 100 s0 j) = true) /\
+  oof (after tk 100 s0 2) = false /\
+  SchedCycleOnce.root_sent tk 100 (after tk 100 s0 0) = [1; 2]%N /\      (* 3 is entered in this pass, not sent *)
+  (* deque [3; 1; 2] (the mid-pass extend put 3 in front: finding D3); 1 removes 2 before its turn *)
+  SchedCycleOnce.root_sent tk 100 (after tk 100 s0 1) = [3; 1]%N /\
+  SchedCycleOnce.root_sent tk 100 (after tk 100 s0 2) = [3; 1]%N.
+Proof.
+  cbv zeta. split; [reflexivity|]. split; [vm_compute; reflexivity|].
+  split. { intros j Hj. destruct j as [|[|j]]; try lia; vm_compute; reflexivity. }
+  vm_compute. repeat split.
 Qed.
 
 (* ------------------------------------------------------------------ *)
